@@ -190,8 +190,25 @@ Definition ucheck_spec (c : ucase) : bool :=
   | CCrash => false
   end.
 
-(* one generated case = the calls made on ONE expression object, in order (a call history); [] is never generated *)
+(* one generated case = the calls made on ONE expression object, in order (a call history), or -- round 4 -- a SESSION:
+   the steps made on SEVERAL objects in one process, in order.  The denotation has no history and no process state:
+   every unit is judged on its own, so a session is accepted iff each of its steps is (check_*_app below is that
+   statement).  [] is never generated *)
 Definition case := list ucase.
 Definition nonempty {A} (l : list A) : bool := match l with [] => false | _ => true end.
 Definition check_corr (c : case) : bool := nonempty c && forallb ucheck_corr c.
 Definition check_spec (c : case) : bool := nonempty c && forallb ucheck_spec c.
+
+(* a session is judged step by step: the verdict on a concatenation is the conjunction of the verdicts *)
+Lemma check_spec_app : forall a b : case, nonempty a = true -> nonempty b = true ->
+  check_spec (a ++ b) = check_spec a && check_spec b.
+Proof.
+  intros a b Ha Hb. unfold check_spec. rewrite Ha, Hb, forallb_app.
+  destruct a; [discriminate|]. reflexivity.
+Qed.
+Lemma check_corr_app : forall a b : case, nonempty a = true -> nonempty b = true ->
+  check_corr (a ++ b) = check_corr a && check_corr b.
+Proof.
+  intros a b Ha Hb. unfold check_corr. rewrite Ha, Hb, forallb_app.
+  destruct a; [discriminate|]. reflexivity.
+Qed.
